@@ -211,6 +211,17 @@ static inline void metered_free(void* p) noexcept {
 }
 void* operator new(size_t n) { return metered_alloc(n); }
 void* operator new[](size_t n) { return metered_alloc(n); }
+// the nothrow forms too: libstdc++'s temporary buffers (std::stable_sort, std::inplace_merge) allocate with
+// operator new(n, std::nothrow) and release with the plain operator delete; leaving the nothrow form to the sanitizer
+// runtime makes every such buffer an alloc-dealloc-mismatch report
+void* operator new(size_t n, const std::nothrow_t&) noexcept {
+  try { return metered_alloc(n); } catch (const std::bad_alloc&) { return nullptr; }
+}
+void* operator new[](size_t n, const std::nothrow_t&) noexcept {
+  try { return metered_alloc(n); } catch (const std::bad_alloc&) { return nullptr; }
+}
+void operator delete(void* p, const std::nothrow_t&) noexcept { metered_free(p); }
+void operator delete[](void* p, const std::nothrow_t&) noexcept { metered_free(p); }
 void operator delete(void* p) noexcept { metered_free(p); }
 void operator delete[](void* p) noexcept { metered_free(p); }
 void operator delete(void* p, size_t) noexcept { metered_free(p); }
